@@ -15,27 +15,27 @@ NS = [8, 15, 16, 23, 64, 100]
 
 def gen_cases(rnd, tier):
     import dedisp_util as D
-    k = 8 if tier == "thorough" else 1
+    k = 6 if tier == "thorough" else 1
     full = tier == "thorough"
     cases = []
-    for i in range(230 * k):
+    for i in range(200 * k):
         c = D.gen_chirpfn_case(rnd, full and i % 4 == 0)
         if i % 100 == 0:
             c["xcheck"] = rnd.choice(c["bins"])
         cases.append(c)
-    for i in range(90 * k):
+    for i in range(80 * k):
         c = D.gen_bb_case(rnd, "chirpsig", NS, decades=True)
         c["bins"] = D.pick_bins(rnd, c["N"], full and i % 4 == 0)
         if i % 40 == 0:
             c["xcheck"] = rnd.choice(c["bins"])
         cases.append(c)
-    for i in range(110 * k):
+    for i in range(100 * k):
         c = D.gen_bb_case(rnd, "tone", NS[1:])
         c["supplied"] = i % 3 == 0
         cases.append(c)
     for i in range(30 * k):      # tones under DMs over all decades (mostly everything cropped or nothing)
         cases.append(D.gen_bb_case(rnd, "tone", NS[1:], decades=True))
-    for i in range(130 * k):
+    for i in range(110 * k):
         c = D.gen_bb_case(rnd, "cohdd", [1, 2, 3, 4, 5, 6, 7, 8, 8], nchans=(1, 1, 2, 3))
         c["supplied"] = i % 3 == 0
         c["xcheck"] = i % 60 == 0
@@ -43,7 +43,7 @@ def gen_cases(rnd, tier):
     for i in range(40 * k):
         cases.append(D.gen_bb_case(rnd, "roundtrip", [128, 250, 256], nchans=(1, 2),
                                    span=lambda r, N: r.uniform(0.005, 0.09) * N))
-    for i in range(500 * k):
+    for i in range(450 * k):
         c = D.gen_bb_case(rnd, "crop", NS + [1, 2, 5], decades=i % 2 == 0,
                           span=lambda r, N: r.uniform(0, 1.4) * N)
         cases.append(c)
@@ -55,7 +55,7 @@ def run(chk):
     rnd = random.Random(chk.seed)
     c06.model_check(chk, [("Neg_Dedisp_pinned.cfg", "CropIsValidTimes")])
     cases = gen_cases(rnd, chk.tier)
-    events = D.collect(cases)
+    events = D.collect(cases, chk)
     D.judge(chk, events, cases, "C05", jobs=14, timeout=6000 if chk.tier == "thorough" else 1500)
     shown = set()
     for e in events:
